@@ -50,14 +50,26 @@ EcucCases == UNION {{[fam |-> "ecuc", group |-> SetToSortSeq({ParamKey(e) : e \i
 MixItems == {[k |-> k, n |-> n] : k \in {"SYSTEM-SIGNAL", "I-SIGNAL"}, n \in {"a2", "a10", "b"}}
 MixCases == UNION {{[fam |-> "mixed", group |-> SetToSortSeq({e.k \o ":" \o e.n : e \in S}, LAMBDA u, w : TRUE), perm |-> [i \in 1..Cardinality(S) |-> f[i]]] : f \in Perms(S)} :
                      S \in {T \in SUBSET MixItems : Cardinality(T) >= 2 /\ Cardinality(T) <= 3 /\ \A e1, e2 \in T : e1 # e2 => e1.n # e2.n}}
-Cases == PkgCases \cup EcucCases \cup MixCases
+\* siblings without any key (SDG in SDGS) are ordered by their content, which is itself sorted: every sibling is a
+\* sequence of SD texts; the canonical form of a sibling has its texts in order
+SdRank == [a |-> 1, b |-> 2, c |-> 3]
+SdTexts == DOMAIN SdRank
+NestItems == UNION {[1..n -> SdTexts] : n \in 1..2}
+RECURSIVE Join(_)
+Join(sq) == IF sq = <<>> THEN "" ELSE IF Len(sq) = 1 THEN sq[1] ELSE sq[1] \o "," \o Join(Tail(sq))
+Canon(sq) == Join(SortSeq(sq, LAMBDA u, w : SdRank[u] < SdRank[w]))
+NestGroup(S) == LET ks == {Canon(e) : e \in S} IN [k \in ks |-> Cardinality({e \in S : Canon(e) = k})]
+NestCases == UNION {{[fam |-> "nested", group |-> NestGroup(S), perm |-> [i \in 1..Cardinality(S) |-> f[i]]] : f \in Perms(S)} :
+                      S \in {T \in SUBSET NestItems : Cardinality(T) >= 2 /\ Cardinality(T) <= (IF MaxSize > 3 THEN 3 ELSE 2)}}
+Cases == PkgCases \cup EcucCases \cup MixCases \cup NestCases
 
 \* ------------------------------------------------------------------ (3) judging results of the real library
 \* result record: [fam, group, before (keys), after (keys), after2 (keys), res (result class), sub (subtree digests before/after as sets)]
 ASSUME Mode # "judge" \/ TLCSet(9, ndJsonDeserialize(IOEnv.RESULTS))
 Log == TLCGet(9)
 Bag(sq) == [k \in {sq[i] : i \in 1..Len(sq)} |-> Cardinality({i \in 1..Len(sq) : sq[i] = k})]
-SortPermutesOnly(r) == Bag(r.after) = Bag(r.before) /\ r.subafter = r.subbefore
+\* cbefore / cafter: the sibling keys with the content of every sibling in canonical order (= before / after except for nested siblings)
+SortPermutesOnly(r) == Bag(r.cafter) = Bag(r.cbefore) /\ r.subafter = r.subbefore
 SortIdempotent(r) == r.after2 = r.after
 SortNeverFails(r) == r.res = "ok"
 \* all results of one group (same siblings in different initial orders) agree
